@@ -594,6 +594,19 @@ def corpus_attrs(package="attrs", byte_order=None):
             groups.append(ap(Group("g%d" % j, nid(), [ap(Field("x", nid(), "uint16"), j), ap(Field("y", nid(), "E%d" % j), (j + k) % 4)], [inner], []), (j + k) % 4))
         data = [ap(Data("d%d" % j, nid(), "varDataEncoding"), (j + k) % 4) for j in range(4)]
         msgs.append(ap(Message("M%d" % k, 10 + k, fields, groups, data), k))
+    # field `presence` x kind of the field's type: the effective presence is the type's for <type>, the field's own for
+    # composites, required for sets, never optional for enums (added after seeded change C18-4: no generated field of
+    # a non-primitive type carried a presence attribute)
+    types.append(Type("PK", "uint8", presence="constant", const="3"))
+    pf = []
+    for pres in (None, "required", "optional"):
+        sfx = {None: "n", "required": "r", "optional": "o"}[pres]
+        for tn_, tt in (("req", "T0"), ("opt", "T1"), ("arr", "Arr0"), ("enum", "E0"), ("set", "S0"), ("comp", "Inner0"),
+                        ("comp2", "Outer"), ("const", "PK"), ("prim", "int32")):
+            pf.append(Field("p_%s_%s" % (tn_, sfx), nid(), tt, presence=pres))
+    msgs.append(Message("presM", 20, pf, [Group("pg", nid(), [Field("c_o", nid(), "Inner1", presence="optional"),
+                                                              Field("c_r", nid(), "Inner1", presence="required"),
+                                                              Field("e_o", nid(), "E1", presence="optional")], [], [])], []))
     from . import refmodel
     s = Schema(package, id=9, version=5, byte_order=byte_order, types=types, messages=msgs, semantic_version="5.0",
                description="covering corpus: attribute matrix", name=package)
